@@ -4,7 +4,7 @@
 use crate::codec::{Frame, is_pattern, pattern};
 use crate::families::aio::{self, sleep_ms};
 use crate::families::ws_common::{Inbox, check_inbox_clean, raw_connect, send_frame, spawn_collector, unlimited_config, wait_until};
-use crate::framework::{Case, Family, pick, range};
+use crate::framework::{Case, Family, coin, pick, range};
 use futures_util::{SinkExt, StreamExt};
 use repe::constants::{BodyFormat, ErrorCode};
 use repe::server::{Execution, HandlerErased, Router};
@@ -297,6 +297,28 @@ fn c17_ws_server_paths(case: &Case) {
 
 /// Several outbound messages are queued before the writer gets to run: the guard must hold
 /// for every one of them, not only for the message that woke the writer.
+/// Largest payload among the (unmasked) WebSocket frames a server wrote, from the raw bytes of
+/// its side of the TCP connection (HTTP upgrade response first).
+fn largest_ws_payload_from_server(bytes: &[u8]) -> usize {
+    let Some(start) = bytes.windows(4).position(|w| w == b"\r\n\r\n").map(|p| p + 4) else { return 0 };
+    let mut at = start;
+    let mut max = 0usize;
+    while at + 2 <= bytes.len() {
+        let len7 = (bytes[at + 1] & 0x7f) as usize;
+        let masked = bytes[at + 1] & 0x80 != 0;
+        let (hdr, len) = match len7 {
+            126 if at + 4 <= bytes.len() => (4, u16::from_be_bytes([bytes[at + 2], bytes[at + 3]]) as usize),
+            127 if at + 10 <= bytes.len() => (10, u64::from_be_bytes(bytes[at + 2..at + 10].try_into().unwrap()) as usize),
+            126 | 127 => break,
+            n => (2, n),
+        };
+        let hdr = hdr + if masked { 4 } else { 0 };
+        max = max.max(len);
+        at += hdr + len;
+    }
+    max
+}
+
 fn c17_ws_server_burst(case: &Case) {
     net::reset(roomy_net());
     let limit = draw_limit().map(|l| l.min(70_000));
@@ -327,6 +349,11 @@ fn c17_ws_server_burst(case: &Case) {
         let reg2 = reg.clone();
         let full = Arc::new(AtomicU64::new(0));
         let full2 = full.clone();
+        // the handler can end the server itself, right after it has queued its notifies
+        let stop_tx: Arc<std::sync::Mutex<Option<tokio::sync::oneshot::Sender<()>>>> = Default::default();
+        let (stx, stop_rx) = tokio::sync::oneshot::channel::<()>();
+        *stop_tx.lock().unwrap() = Some(stx);
+        let stop2 = stop_tx.clone();
         let router = Router::new()
             .with_erased_handler("/sized", Arc::new(Sized { off_reader: false }))
             .with_erased_handler("/sized_off", Arc::new(Sized { off_reader: true }))
@@ -348,6 +375,11 @@ fn c17_ws_server_burst(case: &Case) {
                     }
                     queued.push(ok);
                 }
+                if v["then_stop"].as_bool().unwrap_or(false)
+                    && let Some(tx) = stop2.lock().unwrap().take()
+                {
+                    let _ = tx.send(());
+                }
                 Ok(json!({"queued": queued}))
             });
         let too_large = Arc::new(std::sync::Mutex::new(Vec::<(String, usize, usize)>::new()));
@@ -361,12 +393,17 @@ fn c17_ws_server_burst(case: &Case) {
             }
         });
         let srv = tokio::spawn(async move {
-            let _ = server.serve_listener(listener, "/repe").await;
+            let _ = server
+                .serve_listener_with_shutdown(listener, "/repe", async move {
+                    let _ = stop_rx.await;
+                })
+                .await;
         });
         let Ok(ws) = raw_connect(addr, "/repe").await else {
             case.harness_error("handshake failed");
             return;
         };
+        let main_conn = ws.get_ref().conn();
         let (mut sink, stream) = ws.split();
         let inbox = Arc::new(Inbox::default());
         let collector = spawn_collector(stream, inbox.clone());
@@ -508,6 +545,31 @@ fn c17_ws_server_burst(case: &Case) {
         }
         if ops.iter().any(|o| matches!(o, Op::Burst { .. })) {
             case.probe("burst_queued_behind_other_messages");
+        }
+        // last: messages around the limit are still queued when the server is shut down (the
+        // handler that queued them fires the shutdown itself): what the writer still sends while
+        // it drains is held to the limit like everything else
+        if let Some(l) = limit
+            && !case.failed()
+            && simkernel::choose(2) == 0
+        {
+            let lens: Vec<usize> = [l + 1, l - 10, l + 300, l].iter().map(|s| s.saturating_sub(48 + "/pushed".len())).collect();
+            // ... with the peer's Close frame right behind that request, in the same write: the
+            // reader leaves while the writer still has those messages to get rid of
+            let last = Frame::new(9_000, b"/pushmany", &serde_json::to_vec(&json!({"tag": 900_000, "lens": lens, "broadcast": false, "then_stop": coin()})).unwrap()).with_formats(1, 2);
+            let _ = sink.feed(WsMessage::Binary(last.encode())).await;
+            let _ = sink.feed(WsMessage::Close(None)).await;
+            let _ = tokio::time::timeout(Duration::from_secs(2), sink.flush()).await;
+            let ib = inbox.clone();
+            if wait_until(5_000, || ib.ended()).await {
+                case.probe("connection_ended_with_messages_queued");
+            }
+            case.probe("shutdown_with_oversized_messages_queued");
+            // (a WebSocket endpoint that has sent Close discards data frames that still arrive, so
+            // the peer's message stream cannot show them: the bytes on the TCP connection can)
+            sleep_ms(20).await;
+            let m = largest_ws_payload_from_server(&net::tap_of(&main_conn, simkernel::net::Side::B));
+            case.check(m <= l, "message-over-limit", || format!("while draining at shutdown the server put a WebSocket frame with a {m}-byte payload on the wire, assumed peer frame limit {l}"));
         }
         check_inbox_clean(&case, "WebSocketServer", &inbox);
         case.nontrivial();
